@@ -34,20 +34,46 @@ type regFact struct {
 	file, recv, method, callee string
 	locked, oneSpan            bool
 	snapshot                   string
+	wlock                      bool // the critical section was opened with Lock(), not RLock()
 }
 
-// lockState: the critical section the walker is in (0: none) and how many this path has opened.
-type lockState struct{ span, opened int }
+// lockState: the critical section the walker is in (0: none), how many this path has opened, and whether the
+// current one is a write lock.
+type lockState struct {
+	span, opened int
+	write        bool
+}
 
 func mergeLock(a, b lockState) lockState {
 	if a == b {
 		return a
 	}
-	m := lockState{0, a.opened}
+	m := lockState{0, a.opened, false}
 	if b.opened > m.opened {
 		m.opened = b.opened
 	}
 	return m
+}
+
+// writeSuffixes: the state of a collection that only a writer may touch
+var writeSuffixes = []string{".outputs", ".mappings", ".inputs", ".processedState", ".vals"}
+
+func stateTarget(e ast.Expr) string {
+	if ix, ok := e.(*ast.IndexExpr); ok {
+		e = ix.X
+	}
+	p := selectorPath(e)
+	for _, suf := range writeSuffixes {
+		if strings.HasSuffix(p, suf) {
+			return p[strings.Index(p, ".")+1:]
+		}
+	}
+	return ""
+}
+
+func (w *lockWalker) noteWrite(target string, st lockState) {
+	*w.facts = append(*w.facts, regFact{w.file, w.recv, w.method, "write " + target,
+		st.span != 0, st.span != 0 && st.opened == 1, "-", st.span != 0 && st.write})
 }
 
 type lockWalker struct {
@@ -123,8 +149,14 @@ func (w *lockWalker) scanCalls(n ast.Node, st lockState) {
 		switch c := x.(type) {
 		case *ast.FuncLit:
 			// a closure runs later, on its own: whatever it does is not under this function's lock
-			w.block(c.Body.List, lockState{0, st.opened})
+			w.block(c.Body.List, lockState{0, st.opened, false})
 			return false
+		case *ast.AssignStmt:
+			for _, l := range c.Lhs {
+				if t := stateTarget(l); t != "" {
+					w.noteWrite(t, st)
+				}
+			}
 		case *ast.SelectorExpr:
 			p := selectorPath(c)
 			for _, suf := range stateSuffixes {
@@ -133,6 +165,11 @@ func (w *lockWalker) scanCalls(n ast.Node, st lockState) {
 				}
 			}
 		case *ast.CallExpr:
+			if id, ok := c.Fun.(*ast.Ident); ok && id.Name == "delete" && len(c.Args) == 2 {
+				if t := stateTarget(c.Args[0]); t != "" {
+					w.noteWrite(t, st)
+				}
+			}
 			p := selectorPath(c.Fun)
 			isInsert := strings.HasSuffix(p, ".eventHandlers.Insert")
 			if isInsert || strings.HasSuffix(p, ".eventHandlers.Distribute") {
@@ -141,7 +178,7 @@ func (w *lockWalker) scanCalls(n ast.Node, st lockState) {
 					snap = w.snapshotOf(c, st)
 				}
 				*w.facts = append(*w.facts, regFact{w.file, w.recv, w.method, p[strings.LastIndex(p, ".")+1:],
-					st.span != 0, st.span != 0 && st.opened == 1, snap})
+					st.span != 0, st.span != 0 && st.opened == 1, snap, st.span != 0 && st.write})
 			}
 		}
 		return true
@@ -165,7 +202,7 @@ func (w *lockWalker) block(l []ast.Stmt, locked lockState) lockState {
 				switch name {
 				case "Lock", "RLock":
 					w.nspan++
-					locked = lockState{w.nspan, locked.opened + 1}
+					locked = lockState{w.nspan, locked.opened + 1, name == "Lock"}
 				case "Unlock", "RUnlock":
 					locked.span = 0
 				}
@@ -176,9 +213,9 @@ func (w *lockWalker) block(l []ast.Stmt, locked lockState) lockState {
 			if _, ok := muCall(st.Call); ok {
 				continue // deferred unlock: the lock is held until the function returns
 			}
-			w.scanCalls(st.Call, lockState{0, locked.opened})
+			w.scanCalls(st.Call, lockState{0, locked.opened, false})
 		case *ast.GoStmt:
-			w.scanCalls(st.Call, lockState{0, locked.opened})
+			w.scanCalls(st.Call, lockState{0, locked.opened, false})
 		case *ast.IfStmt:
 			w.scanCalls(st.Init, locked)
 			w.scanCalls(st.Cond, locked)
@@ -260,7 +297,7 @@ func regFacts(repo string) []regFact {
 		fset := token.NewFileSet()
 		file, err := parser.ParseFile(fset, filepath.Join(repo, "pkg/kube/krt", f), nil, 0)
 		if err != nil {
-			facts = append(facts, regFact{f, "parse-error", "-", "-", false, false, "-"})
+			facts = append(facts, regFact{f, "parse-error", "-", "-", false, false, "-", false})
 			continue
 		}
 		for _, d := range file.Decls {
@@ -268,7 +305,11 @@ func regFacts(repo string) []regFact {
 			if !ok || fd.Body == nil {
 				continue
 			}
-			w := &lockWalker{facts: &facts, file: f, recv: recvName(fd), method: fd.Name.Name}
+			recv := recvName(fd)
+			if recv == "" {
+				recv = "func" // no receiver: a constructor or helper
+			}
+			w := &lockWalker{facts: &facts, file: f, recv: recv, method: fd.Name.Name}
 			w.block(fd.Body.List, lockState{})
 		}
 	}
@@ -289,14 +330,15 @@ func writeRegFacts(out string) {
 	b.WriteString("/- generated by `c16 table regfacts` from " + "pkg/kube/krt of the checked tree; do not edit -/\n")
 	b.WriteString("namespace IstioModel.Generated.C16\n\n")
 	b.WriteString("/-- (file, receiver.method, callee, called while the collection lock taken in the function is held,\n")
-	b.WriteString("    that critical section is the only one opened on the path to the call, where the snapshot is read) -/\n")
-	b.WriteString("def regFacts : List (String × String × String × Bool × Bool × String) := [\n")
+	b.WriteString("    that critical section is the only one opened on the path to the call, where the snapshot is read,\n")
+	b.WriteString("    the critical section is a WRITE lock). callee `write <field>`: an assignment to / delete from the state -/\n")
+	b.WriteString("def regFacts : List (String × String × String × Bool × Bool × String × Bool) := [\n")
 	for i, f := range facts {
 		sep := ","
 		if i == len(facts)-1 {
 			sep = ""
 		}
-		fmt.Fprintf(&b, "  (%q, %q, %q, %v, %v, %q)%s\n", f.file, f.recv+"."+f.method, f.callee, f.locked, f.oneSpan, f.snapshot, sep)
+		fmt.Fprintf(&b, "  (%q, %q, %q, %v, %v, %q, %v)%s\n", f.file, f.recv+"."+f.method, f.callee, f.locked, f.oneSpan, f.snapshot, f.wlock, sep)
 	}
 	b.WriteString("]\n\nend IstioModel.Generated.C16\n")
 	if err := os.WriteFile(out, []byte(b.String()), 0o644); err != nil {
